@@ -6,6 +6,7 @@ package main
 // invalidation breaks format rule X" => must be refused).
 
 import (
+	"fmt"
 	"crypto/ecdsa"
 	"crypto/elliptic"
 	"crypto/rand"
@@ -37,7 +38,24 @@ func errStr(err error) string {
 	return "OK"
 }
 
+// runValidate40: the verdict must not depend on the iteration order of the key maps
+func runValidateRepeat(target string, v *valInput, times int) string {
+	count := map[string]int{}
+	for i := 0; i < times; i++ {
+		count[runValidate(target, v)]++
+	}
+	if len(count) == 1 {
+		for k := range count {
+			return k
+		}
+	}
+	return fmt.Sprintf("NONDETERMINISTIC(OK %d times, ERR %d times, other %d of %d calls)", count["OK"], count["ERR"], times-count["OK"]-count["ERR"], times)
+}
+
 func runValidate(target string, v *valInput) string {
+	if strings.HasSuffix(target, "*40") {
+		return runValidateRepeat(strings.TrimSuffix(target, "*40"), v, 40)
+	}
 	return lib.Recover(func() string {
 		switch target {
 		case "metablock":
@@ -130,6 +148,7 @@ func pemTable(strs ...string) string {
 }
 
 func modelValidate(target string, v *valInput) string {
+	target = strings.TrimSuffix(target, "*40")
 	ok := "(fun _ : unit => @nil N)"
 	switch target {
 	case "metablock":
@@ -157,6 +176,7 @@ func modelValidate(target string, v *valInput) string {
 }
 
 type valCase struct {
+	desc   string
 	klass  string
 	target string
 	v      valInput
@@ -497,6 +517,82 @@ func keyCases(r *lib.Rng) []valCase {
 	return out
 }
 
+// layouts with 3-6 keys in keys / rootcas / intermediatecas of which exactly one is invalid, for every
+// kind of invalid key; validated 40 times each (Go randomises the map order on every call): must be
+// refused every time
+func multiKeyCases(r *lib.Rng) []valCase {
+	type bad struct {
+		name string
+		f    func(k *intoto.Key) string // returns the map id to file the key under
+	}
+	id := func(k *intoto.Key) string { return k.KeyID }
+	bads := []bad{
+		{"mapid", func(k *intoto.Key) string { return k.KeyID + "00" }},
+		{"keyid-hex", func(k *intoto.Key) string { k.KeyID = "xyz"; return k.KeyID }},
+		{"keyid-hex-unicode", func(k *intoto.Key) string { k.KeyID = "\uff11\uff12\uff41\uff42"; return k.KeyID }},
+		{"private", func(k *intoto.Key) string { k.KeyVal.Private = "aabb"; return id(k) }},
+		{"keytype-empty", func(k *intoto.Key) string { k.KeyType = ""; return id(k) }},
+		{"keytype-unknown", func(k *intoto.Key) string { k.KeyType = "dsa"; return id(k) }},
+		{"scheme-empty", func(k *intoto.Key) string { k.Scheme = ""; return id(k) }},
+		{"scheme-mismatch", func(k *intoto.Key) string {
+			if k.KeyType == "ed25519" {
+				k.Scheme = "rsassa-pss-sha256"
+			} else {
+				k.Scheme = "ed25519"
+			}
+			return id(k)
+		}},
+		{"nomaterial", func(k *intoto.Key) string { k.KeyVal.Public = ""; k.KeyVal.Certificate = ""; return id(k) }},
+		{"hashalg", func(k *intoto.Key) string { k.KeyIDHashAlgorithms = []string{"sha256", "md5"}; return id(k) }},
+	}
+	var out []valCase
+	for mi, where := range []string{"keys", "rootcas", "intermediatecas"} {
+		for bi, b := range bads {
+			n := 3 + (mi+bi)%4 // 3..6 keys
+			m := map[string]intoto.Key{}
+			for len(m) < n-1 {
+				k := genKey(r)
+				k.KeyVal.Certificate = ""
+				if k.KeyVal.Public == "" {
+					k.KeyVal.Public = "00ff"
+				}
+				m[k.KeyID] = k
+			}
+			k := genKey(r)
+			mapid := b.f(&k)
+			m[mapid] = k
+			l := intoto.Layout{Type: "layout", Expires: "2030-01-02T03:04:05Z"}
+			switch where {
+			case "keys":
+				l.Keys = m
+			case "rootcas":
+				l.RootCas = m
+			default:
+				l.IntermediateCas = m
+			}
+			out = append(out, valCase{klass: "multikey-" + where, desc: fmt.Sprintf("%d keys in %s, one of them invalid (%s); validated 40 times", n, where, b.name),
+				target: "metablock*40", v: valInput{Layout: &l}, want: "ERR"})
+		}
+		// all keys valid: accepted every time
+		m := map[string]intoto.Key{}
+		for len(m) < 4 {
+			k := genKey(r)
+			m[k.KeyID] = k
+		}
+		l := intoto.Layout{Type: "layout", Expires: "2030-01-02T03:04:05Z"}
+		switch where {
+		case "keys":
+			l.Keys = m
+		case "rootcas":
+			l.RootCas = m
+		default:
+			l.IntermediateCas = m
+		}
+		out = append(out, valCase{klass: "multikey-" + where + "-valid", target: "metablock*40", v: valInput{Layout: &l}, want: "OK"})
+	}
+	return out
+}
+
 func valCases(r *lib.Rng, w *lib.Writer, n int, thorough bool) {
 	var all []valCase
 	rounds := 1
@@ -540,9 +636,14 @@ func valCases(r *lib.Rng, w *lib.Writer, n int, thorough bool) {
 		}
 		all = pick
 	}
+	// always part of the run (not subject to the sampling quota)
+	all = append(all, multiKeyCases(r.Fork())...)
 	for _, c := range all {
 		v := c.v
 		in := input{Kind: "validate", Target: c.target, Val: &v, Desc: c.klass}
+		if c.desc != "" {
+			in.Desc = c.desc
+		}
 		w.Put(lib.Case{Klass: "validate:" + c.klass, Input: lib.MustJSON(in), Impl: runValidate(c.target, &v), Oracle: c.want,
 			CoqModel: modelValidate(c.target, &v)})
 	}
